@@ -11,6 +11,18 @@ GRAPH_NOTE = ('Trusted: CPython re / re._parser as reader and executor of regex 
               'stated in the evidence.')
 
 CHECKS = {
+    'C01': ('exhaustive enumeration of code points, literal alphabet and every str argument position; parse-tree normal form',
+            'Pregex(c) for every code point, Pregex(s) for every literal of the code-derived alphabet and every '
+            '(str position, literal) pair are constructed on the real library; the contribution of s must have the '
+            'normal form Seq[Lit], which decides exact-match for all texts.', '3 C01',
+            'Trusted: re._parser as reader of regex syntax. Literal length bounded (<=2 over 45 symbols + curated, triples over the escape set in thorough).'),
+    'C04': ('exhaustive product operands x quantifier forms x bound domain x spellings; structural equivalence + executed counting',
+            'Every (operand, quantifier, bound tuple, greediness, spelling) over the stated domains is executed; results are '
+            'compared with (?:X){n,m}, counted on witness repetitions, and rejections compared with an independent decision table.',
+            '3 C04', GRAPH_NOTE),
+    'C08': ('explicit-state BFS of the grouping sub-graph to depth 4/5; tree model of capture()/group()',
+            'All nestings of capture()/capture(name)/group()/group(True)/optional/concat up to the depth bound; the result tree '
+            'is predicted from the operand tree by the documented rules.', '3 C08', GRAPH_NOTE),
     'C02': ('explicit-state BFS of the DSL value graph; parse-tree normal form, else exhaustive bounded texts',
             'Every transition of the DSL value graph up to the stated depth executes the real operation in all '
             'spellings and is compared with the parenthesised composition of its operands: equal normal forms '
